@@ -1,10 +1,11 @@
 (* C14 (ILP part) — goodput objective of the ILP planner.  Soundness: the objective value of EVERY
    satisfying assignment is the goodput of the plan it reads back as (and that plan is feasible:
-   C10_ilp / C11_ilp / C12_ilp).  Completeness is FALSE of the code as written (F11-ii, F11-iii,
-   F22 below).  Only statements; proofs are in Proofs/IlpP14.v. *)
+   C10_ilp / C11_ilp / C12_ilp).  Completeness is FALSE of the code as written (F11-ii, F11-iii, F11-iv,
+   F22 below) and PROVED under the hypotheses that exclude exactly these (C14_ilp_complete).
+   Only statements; proofs are in Proofs/IlpP14*.v. *)
 From Coq Require Import ZArith Bool List.
 Import ListNotations.
-From Verif Require Import Model.Val Gen.Src_Ilp Model.IlpModel Proofs.IlpP Proofs.IlpP11 Proofs.IlpP10 Proofs.IlpP14 Proofs.IlpP14s Proofs.IlpPM Proofs.IlpP14c Proofs.IlpP14d.
+From Verif Require Import Model.Val Gen.Src_Ilp Model.IlpModel Proofs.IlpP Proofs.IlpP11 Proofs.IlpP10 Proofs.IlpP14 Proofs.IlpP14s Proofs.IlpPM Proofs.IlpP14c Proofs.IlpP14d Proofs.IlpP14e Proofs.IlpP14f.
 Open Scope Z_scope.
 
 (* the objective counts exactly the task graphs all of whose reward tasks are placed (or running) *)
@@ -24,21 +25,43 @@ Theorem C14_ilp_sound_nonvacuous : exists I a, sat (gen_ilp I) a /\ wf I /\ i_go
 Proof. exact C14_sound_nonvacuous. Qed.
 Print Assumptions C14_ilp_sound_nonvacuous.
 
+(* CONDITIONAL COMPLETENESS, general form (whole graphs offered together included): a feasible plan of the specification
+   is represented by a satisfying assignment with objective = its goodput, provided
+     no_running        no decided task is RUNNING                                              (otherwise F11-iii),
+     startable_with sv the unplaced tasks can be given start values sv within [max(now+1, release), deadline] and not
+                       before their co-decided parents (after parent end + 1 when the parent is placed) — the start
+                       variables of unplaced tasks are bound by their deadline and precedence rows  (otherwise F22),
+     parents_decided   a placed task with co-decided parents has ALL its parents among the decided tasks (otherwise F11-iv),
+     no_three_way_sv   two tasks of one worker that both overlap a third task overlap each other        (otherwise F11-ii).
+   Together with C14_ilp_sound: on such instances the optimum of the system equals the maximum goodput of these plans. *)
+Theorem C14_ilp_complete : forall I p sv,
+  nodup_ids I -> rt_nonneg I -> req_nonneg I -> caps_nonneg I -> i_goal I = Goodput ->
+  no_running I -> feasible_clb I p = true -> startable_with I p sv -> parents_decided I p -> no_three_way_sv I p sv ->
+  exists a, sat (gen_ilp I) a /\ objective (gen_ilp I) a = goodput I p.
+Proof. exact C14_complete. Qed.
+Print Assumptions C14_ilp_complete.
+Theorem C14_ilp_complete_general_nonvacuous :
+  nodup_ids ex_chain /\ rt_nonneg ex_chain /\ req_nonneg ex_chain /\ caps_nonneg ex_chain /\ i_goal ex_chain = Goodput /\
+  no_running ex_chain /\ feasible_clb ex_chain ex_chain_plan = true /\ startable_with ex_chain ex_chain_plan ex_chain_sv /\
+  parents_decided ex_chain ex_chain_plan /\ no_three_way_sv ex_chain ex_chain_plan ex_chain_sv /\ goodput ex_chain ex_chain_plan = 1.
+Proof. exact C14_complete_g_nonvacuous. Qed.
+Print Assumptions C14_ilp_complete_general_nonvacuous.
+
 (* CONDITIONAL COMPLETENESS (task-by-task mode): every feasible plan of the specification is represented by a
    satisfying assignment with objective = its goodput, provided
-     taskwise      no two decided tasks depend on one another (the planner's default mode; whole-graph offers with
-                   co-decided parents and children are NOT covered: that part is missing, see C14_ilp.v header),
+     taskwise      no two decided tasks depend on one another (the planner's default mode; the general form is
+                   C14_ilp_complete above — this instance needs no start values for the unplaced tasks),
      no_running    no decided task is RUNNING                                    (otherwise F11-iii),
      startable     every enforced deadline is >= max(now + 1, release)           (otherwise F22),
      no_three_way  two tasks of one worker that both overlap a third task (wherever it runs, or the single instant
                    of its earliest start if it is unplaced) overlap each other   (otherwise F11-ii).
    With C14_ilp_sound: on such instances the optimum of the system is the maximum goodput over these plans. *)
-Theorem C14_ilp_complete_taskwise_partial : forall I p,
+Theorem C14_ilp_complete_taskwise : forall I p,
   nodup_ids I -> rt_nonneg I -> req_nonneg I -> caps_nonneg I -> i_goal I = Goodput ->
   no_running I -> taskwise I -> startable I -> feasible_clb I p = true -> no_three_way I p ->
   exists a, sat (gen_ilp I) a /\ objective (gen_ilp I) a = goodput I p.
 Proof. exact C14_complete_taskwise. Qed.
-Print Assumptions C14_ilp_complete_taskwise_partial.
+Print Assumptions C14_ilp_complete_taskwise.
 Theorem C14_ilp_complete_nonvacuous :
   nodup_ids ex_two /\ rt_nonneg ex_two /\ req_nonneg ex_two /\ caps_nonneg ex_two /\ i_goal ex_two = Goodput /\
   no_running ex_two /\ taskwise ex_two /\ startable ex_two /\ feasible_clb ex_two ex_two_plan = true /\
@@ -97,3 +120,19 @@ Theorem C14_ilp_completeness_refuted_dead_task :
   (forall a, ~ sat (gen_ilp ex_dead) a) /\ goodput ex_dead (answer ex_dead None) = 0.
 Proof. exact completeness_refuted_dead_task. Qed.
 Print Assumptions C14_ilp_completeness_refuted_dead_task.
+
+(* F11-iv, general form: a task with at least one co-decided parent and at least one parent that is NOT decided in this
+   invocation (COMPLETED earlier, for instance) is unplaced in every satisfying assignment: `len(parent_tasks)` counts
+   all parents of the graph, the placement sum only those that have variables *)
+Theorem C14_ilp_undecided_parent_blocks : forall I a, sat (gen_ilp I) a ->
+  forall c, In c (nonrunning I) -> decided_parents I c <> [] ->
+  Z.of_nat (length (decided_parents I c)) < nparents I c -> decision I a c = None.
+Proof. exact undecided_parent_blocks. Qed.
+Print Assumptions C14_ilp_undecided_parent_blocks.
+(* completeness refuted (F11-iv): diamond A -> C <- B, A completed, B and C offered: B@11, C@16 completes the graph,
+   no satisfying assignment has a positive objective *)
+Theorem C14_ilp_completeness_refuted_completed_parent :
+  feasible_clb ex_cp ex_cp_plan = true /\ goodput ex_cp ex_cp_plan = 1 /\
+  forall a, sat (gen_ilp ex_cp) a -> objective (gen_ilp ex_cp) a <= 0.
+Proof. exact completeness_refuted_completed_parent. Qed.
+Print Assumptions C14_ilp_completeness_refuted_completed_parent.
